@@ -10,6 +10,9 @@ import (
 	"sort"
 	"strings"
 
+	"golang.org/x/tools/go/callgraph"
+	"golang.org/x/tools/go/callgraph/cha"
+	"golang.org/x/tools/go/callgraph/vta"
 	"golang.org/x/tools/go/packages"
 	"golang.org/x/tools/go/ssa"
 	"golang.org/x/tools/go/ssa/ssautil"
@@ -23,6 +26,30 @@ type Prog struct {
 	all   map[string]*packages.Package // by import path, including deps when loaded with allSyntax
 	SSA   *ssa.Program
 	deep  bool
+	dyn   map[ssa.CallInstruction][]*ssa.Function // VTA-resolved callees of dynamic call sites (deep loads only)
+}
+
+// DynCallees resolves a dynamic call site (interface method or function value) with the VTA call graph
+// (CHA refined by variable-type analysis). Only available for deep loads; ok=false otherwise.
+func (p *Prog) DynCallees(site ssa.CallInstruction) ([]*ssa.Function, bool) {
+	if !p.deep {
+		return nil, false
+	}
+	if p.dyn == nil {
+		p.dyn = map[ssa.CallInstruction][]*ssa.Function{}
+		cg := vta.CallGraph(ssautil.AllFunctions(p.SSA), cha.CallGraph(p.SSA))
+		callgraph.GraphVisitEdges(cg, func(e *callgraph.Edge) error {
+			if e.Site != nil && e.Site.Common().StaticCallee() == nil {
+				p.dyn[e.Site] = append(p.dyn[e.Site], e.Callee.Func)
+			}
+			return nil
+		})
+		for k, v := range p.dyn {
+			sort.Slice(v, func(i, j int) bool { return v[i].String() < v[j].String() })
+			p.dyn[k] = v
+		}
+	}
+	return p.dyn[site], true
 }
 
 type loadOpts struct {
@@ -133,7 +160,18 @@ func (p *Prog) Pkg(rel string) *packages.Package {
 }
 
 func (p *Prog) SSAPkg(rel string) *ssa.Package {
+	if pk, ok := p.all[rel]; ok && p.byRel[rel] == nil && p.all[modPath+"/"+rel] == nil {
+		return p.SSA.Package(pk.Types)
+	}
 	return p.SSA.Package(p.Pkg(rel).Types)
+}
+
+// HasPkg reports whether a package (by relative or full path) was loaded.
+func (p *Prog) HasPkg(rel string) bool {
+	_, a := p.byRel[rel]
+	_, b := p.all[modPath+"/"+rel]
+	_, c := p.all[rel]
+	return a || b || c
 }
 
 // Obj looks up a package-level object; nil if absent.
